@@ -73,6 +73,9 @@ def gen(rng, tier):
                            # the variable is replaced by one derived from it whose values have another type (arithmetic with
                            # a float, astype): the type that is saved is the type of the values
                            derive=(rng.choice(['half', 'astype']) if how in (None, 'fill_value') and vd and rng.random() < 0.2 else None)))
+            if vs[-1]['derive'] and how:
+                # values 10..99(.25), halved 5..49.6: a fill outside both (a cell that merely equals the fill is read as missing)
+                vs[-1]['fv'] = 120 if dt in 'bBHIQ' else -999
         # the unlimited dimension needs a variable, otherwise netCDF cannot store its length
         for d in dims:
             if d[2] and not any(d[0] in v['dims'] for v in vs):
